@@ -663,6 +663,7 @@ protected:
 				// v is at maxneg 0x10...000
 				if constexpr (sizeofInteger <= (nbits - rbits)) {
 					f.setbit(sizeofInteger + rbits - 1);
+					f.twosComplement(); // the value is -2^(sizeofInteger-1): sign extend up to nbits
 				}
 			}
 			else {
